@@ -388,4 +388,5 @@ VARIANTS = [
     V("silent-where-negated", S, "self._values[k] = torch.where(mask, old_v, cur_v)", "self._values[k] = torch.where(~mask, cur_v, old_v)", None),
     V("silent-accepted-positive-branch", G, "            if not accepted:\n                state.revert()", "            if accepted:\n                pass\n            else:\n                state.revert()", None),
     V("silent-logical-not", G, "state.revert(~accepted)", "state.revert(torch.logical_not(accepted))", None),
+    V("silent-rename-accepted-array", "src/leaspy/samplers/gibbs.py", "accepted_array", "acc", None, count=3),
 ]
